@@ -211,7 +211,8 @@ def tlc_lines_parallel(chk, module_file, cfg, lines, result_name, nproc=8, timeo
     out = []
     for c, (r, rs) in enumerate(res):
         if rs is None:
-            chk.infra('%s did not finish:\n%s' % (module_file, r.stdout[-3000:]))
+            i = r.stdout.find('Error:')
+            chk.infra('%s did not finish:\n%s' % (module_file, r.stdout[i:i + 1500] if i >= 0 else r.stdout[-3000:]))
         out.append((chunks[c], rs, r))
     return out
 
